@@ -846,10 +846,9 @@ loop:
 // alternate datastores are closed since they are owned by the keystore.
 // The metaDs is not closed because it is owned by the caller.
 func (s *ResettableKeystore) Close() (err error) {
-	select {
-	case <-s.close:
-		// Already closed
-	default:
+	// Repeated and concurrent calls wait until the first one is done, and
+	// return nil.
+	s.closeOnce.Do(func() {
 		close(s.close)
 		<-s.done // Wait for worker to exit (no new buffer appends after this).
 		// Wait for any in-flight altDs write from ResetCids to finish.
@@ -883,6 +882,6 @@ func (s *ResettableKeystore) Close() (err error) {
 			err = fmt.Errorf("error syncing size on close: %w", err)
 			return
 		}
-	}
+	})
 	return
 }
